@@ -1,4 +1,5 @@
 import Sismic.Json
+import Sismic.Model.Clock
 /-!
 # Sismic.Cases — interpretation of protocol cases by the model (dispatch on `kind`)
 -/
@@ -122,9 +123,50 @@ def runInterp (j : Json) : P Json := do
   let out ← go { charts := charts.toArray, fuel := fuel } #[] ops
   return Json.mkObj [("obs", .arr out)]
 
+/-! ## clock cases (over `Rat`) -/
+
+def rat (j : Json) : P Rat :=
+  match j with
+  | .arr #[n, d] => do return mkRat (← n.getInt?) (← d.getNat?)
+  | _ => do return ((← j.getInt?) : Int)
+
+def ofRat (q : Rat) : Json := .arr #[ofInt q.num, ofInt q.den]
+
+def clockOp (j : Json) : P (ClockOp Rat) := do
+  match (← arr j) with
+  | [.str "start", r] => return .start (← rat r)
+  | [.str "stop", r] => return .stop (← rat r)
+  | [.str "speed", r1, r2, s] => return .setSpeed (← rat r1) (← rat r2) (← rat s)
+  | [.str "time", r1, r2, t] => return .setTime (← rat r1) (← rat r2) (← rat t)
+  | [.str "read", r] => return .read (← rat r)
+  | _ => throw "bad clock op"
+
+/-- number of `time.time()` calls the operation makes in state `c` -/
+def clockReads (c : SimClock Rat) : ClockOp Rat → Nat
+  | .start _ => if c.play then 0 else 1
+  | .stop _ => if c.play then 1 else 0
+  | .setSpeed _ _ _ => if c.play then 2 else 1
+  | .setTime _ _ _ => if c.play then 2 else 1   -- rejected: the second call is not reached
+  | .read _ => if c.play then 1 else 0
+
+def runClock (j : Json) : P Json := do
+  let r0 ← rat (← fld j "r0")
+  let ops ← (← arr (← fld j "ops")).mapM clockOp
+  let rec go (c : SimClock Rat) (acc : Array Json) : List (ClockOp Rat) → Array Json
+    | [] => acc
+    | op :: rest =>
+      let (c', o) := c.step op
+      let oj : Json := match o with
+        | .none => .null
+        | .value v => ofRat v
+        | .accepted b => .bool b
+      go c' (acc.push oj) rest
+  return Json.mkObj [("outs", .arr (go (SimClock.init r0) #[] ops))]
+
 def run (j : Json) : P Json := do
   match (← (← fld j "kind").getStr?) with
   | "interp" => runInterp j
+  | "clock" => runClock j
   | "ping" => return Json.mkObj [("pong", .bool true)]
   | k => throw s!"unknown case kind {k}"
 
